@@ -15,25 +15,18 @@ Local Arguments file_index_after : simpl never.
 Lemma file_step_push_split fx ig ov s d c :
   file_step fx ig ov s (Push d c) =
   match file_push_store fx ig ov s d c with
-  | (s1, None) => file_index_after d s1
+  | (s1, None) => file_index_after fx ov d s1
   | (s1, Some x) => (s1, x)
   end.
 Proof.
   unfold file_step, file_push_store.
   destruct (d_name d =? 0).
   - destruct ig.
-    + destruct (is_manifest (d_mt d) && negb (verify d c)); reflexivity.
+    + destruct (is_manifest (d_mt d)); [|reflexivity]. destruct (verify d c); [|reflexivity].
+      destruct (file_restore fx ov (b_tl c) s) as [s2 [e|]]; reflexivity.
     + destruct (get gkey_eqb (gk d) (f_cas s)); [reflexivity|].
       destruct (verify d (limit_reader d c)); reflexivity.
-  - destruct (mem N.eqb (d_name d) (f_names s)); [reflexivity|].
-    destruct (ov && is_some (get N.eqb (path_of (d_name d)) (f_disk s))); [reflexivity|].
-    destruct (verify d c); reflexivity.
-Qed.
-
-Lemma fcore_index_after d s1 : fcore (fst (file_index_after d s1)) = fcore s1.
-Proof.
-  unfold file_index_after. destruct (is_manifest (d_mt d)); [|reflexivity].
-  destruct (file_fetch d s1) as [c1|]; [|reflexivity]. destruct (d_dig d =? b_hash c1); reflexivity.
+  - destruct (file_named_push fx ov s (gk d) (d_name d) c) as [s1 [e|]]; reflexivity.
 Qed.
 
 Definition with_graph (s : file_store) (g : graph) : file_store :=
@@ -47,19 +40,62 @@ Proof. reflexivity. Qed.
 Lemma file_fetch_graph d s g : file_fetch d (with_graph s g) = file_fetch d s.
 Proof. reflexivity. Qed.
 
-Lemma file_push_store_graph fx ig ov s g d c :
-  fcore (fst (file_push_store fx ig ov (with_graph s g) d c)) = fcore (fst (file_push_store fx ig ov s d c)) /\
-  snd (file_push_store fx ig ov (with_graph s g) d c) = snd (file_push_store fx ig ov s d c).
+Lemma file_named_push_graph fx ov s g k n c :
+  file_named_push fx ov (with_graph s g) k n c =
+  (with_graph (fst (file_named_push fx ov s k n c)) g, snd (file_named_push fx ov s k n c)).
 Proof.
-  unfold file_push_store, with_graph. cbn [f_names f_d2p f_disk f_cas f_res f_graph].
+  unfold file_named_push, with_graph. cbn [f_names f_d2p f_disk f_cas f_res f_graph].
+  destruct (mem N.eqb n (f_names s)); [reflexivity|]. destruct (bad_name n); [reflexivity|].
+  destruct (ov && is_some (get N.eqb (path_of n) (f_disk s))); [reflexivity|].
+  destruct ((k_dig k =? b_hash c) && (k_size k =? b_len c)); reflexivity.
+Qed.
+
+Lemma file_restore_graph fx ov tl : forall s g,
+  file_restore fx ov tl (with_graph s g) =
+  (with_graph (fst (file_restore fx ov tl s)) g, snd (file_restore fx ov tl s)).
+Proof.
+  induction tl as [|[k n] tl IH]; intros s g; [reflexivity|].
+  cbn [file_restore]. rewrite file_fetch_graph.
+  change (f_names (with_graph s g)) with (f_names s). change (f_d2p (with_graph s g)) with (f_d2p s).
+  destruct ((n =? 0) || mem N.eqb n (f_names s)); [apply IH|].
+  destruct (file_fetch (mkDesc (k_mt k) (k_dig k) (k_size k) 0) s) as [c2|]; [|apply IH].
+  rewrite file_named_push_graph.
+  destruct (file_named_push fx ov s k n _) as [s1 [e|]]; cbn [fst snd].
+  - destruct e as [o|[| |]]; try reflexivity. apply IH.
+  - apply IH.
+Qed.
+
+Lemma fcore_with_graph s g : fcore (with_graph s g) = fcore s.
+Proof. reflexivity. Qed.
+
+Lemma fcore_index d s : fcore (fst (file_index d s)) = fcore s.
+Proof.
+  unfold file_index. destruct (is_manifest (d_mt d)); [|reflexivity].
+  destruct (file_fetch d s) as [c1|]; [|reflexivity]. destruct (d_dig d =? b_hash c1); reflexivity.
+Qed.
+
+Lemma file_index_after_graph fx ov d s g :
+  fcore (fst (file_index_after fx ov d (with_graph s g))) = fcore (fst (file_index_after fx ov d s)).
+Proof.
+  unfold file_index_after. destruct (is_manifest (d_mt d)); [|now rewrite !fcore_index].
+  rewrite file_fetch_graph. destruct (file_fetch d s) as [c1|]; [|reflexivity].
+  destruct (d_dig d =? b_hash c1); [|reflexivity].
+  rewrite file_restore_graph. destruct (file_restore fx ov (b_tl c1) s) as [s2 [e|]]; cbn [fst snd]; [reflexivity|].
+  now rewrite !fcore_index.
+Qed.
+
+Lemma file_push_store_graph fx ig ov s g d c :
+  file_push_store fx ig ov (with_graph s g) d c =
+  (with_graph (fst (file_push_store fx ig ov s d c)) g, snd (file_push_store fx ig ov s d c)).
+Proof.
+  unfold file_push_store. change (f_cas (with_graph s g)) with (f_cas s).
   destruct (d_name d =? 0).
   - destruct ig.
-    + destruct (is_manifest (d_mt d) && negb (verify d c)); split; reflexivity.
-    + destruct (get gkey_eqb (gk d) (f_cas s)); [split; reflexivity|].
-      destruct (verify d (limit_reader d c)); split; reflexivity.
-  - destruct (mem N.eqb (d_name d) (f_names s)); [split; reflexivity|].
-    destruct (ov && is_some (get N.eqb (path_of (d_name d)) (f_disk s))); [split; reflexivity|].
-    destruct (verify d c); split; reflexivity.
+    + destruct (is_manifest (d_mt d)); [|reflexivity]. destruct (verify d c); [|reflexivity].
+      rewrite file_restore_graph. destruct (file_restore fx ov (b_tl c) s) as [s2 [e|]]; reflexivity.
+    + destruct (get gkey_eqb (gk d) (f_cas s)); [reflexivity|].
+      destruct (verify d (limit_reader d c)); reflexivity.
+  - apply file_named_push_graph.
 Qed.
 
 (* the sequential step acts on everything but the graph independently of the graph *)
@@ -69,11 +105,9 @@ Lemma file_step_core fx ig ov s1 s2 o :
 Proof.
   intro H. rewrite (fcore_eq_graph _ _ H). set (g := f_graph s1). clearbody g. clear H s1.
   destruct o.
-  - rewrite !file_step_push_split.
-    destruct (file_push_store_graph fx ig ov s2 g d c) as [A Bq].
-    destruct (file_push_store fx ig ov (with_graph s2 g) d c) as [sa xa].
-    destruct (file_push_store fx ig ov s2 d c) as [sb xb]. cbn [fst snd] in *. subst xb.
-    destruct xa; [exact A|]. now rewrite !fcore_index_after.
+  - rewrite !file_step_push_split. rewrite file_push_store_graph.
+    destruct (file_push_store fx ig ov s2 d c) as [sb [x|]]; cbn [fst snd]; [reflexivity|].
+    apply file_index_after_graph.
   - cbn [file_step]. rewrite file_fetch_graph. destruct (file_fetch d s2); reflexivity.
   - reflexivity.
   - cbn [file_step]. destruct r; try reflexivity;
@@ -84,6 +118,20 @@ Proof.
   - reflexivity.
   - reflexivity.
   - reflexivity.
+Qed.
+
+(* content without titled successors: the read-back after a store touches the graph only *)
+Lemma fcore_index_after fx ov d s1 : file_unt s1 -> fcore (fst (file_index_after fx ov d s1)) = fcore s1.
+Proof.
+  intro Hu. unfold file_index_after. destruct (is_manifest (d_mt d)); [|apply fcore_index].
+  destruct (file_fetch d s1) as [c1|] eqn:Ef; [|reflexivity].
+  destruct (d_dig d =? b_hash c1); [|reflexivity].
+  rewrite (file_fetch_unt _ _ _ Hu Ef). cbn [file_restore]. apply fcore_index.
+Qed.
+
+Lemma file_unt_core s1 s2 : fcore s1 = fcore s2 -> file_unt s1 -> file_unt s2.
+Proof.
+  intro H. rewrite (fcore_eq_graph _ _ H). intros [A C]. constructor; [exact A | exact C].
 Qed.
 
 (* presence only grows *)
@@ -103,27 +151,81 @@ Proof.
   - now rewrite (get_put_neq eqb Hs).
 Qed.
 
+Lemma fle_trans s1 s2 s3 : fle s1 s2 -> fle s2 s3 -> fle s1 s3.
+Proof. intros A C d H. auto. Qed.
+
+Lemma fle_named_push fx ov s k n c : fle s (fst (file_named_push fx ov s k n c)).
+Proof.
+  unfold file_named_push.
+  destruct (mem N.eqb n (f_names s)); [apply fle_refl|]. destruct (bad_name n); [apply fle_refl|].
+  destruct (ov && is_some (get N.eqb (path_of n) (f_disk s))); [apply fle_refl|].
+  destruct ((k_dig k =? b_hash c) && (k_size k =? b_len c)).
+  - intros d0. unfold file_exists, name_ok. cbn [fst f_names f_d2p f_cas]. intro H.
+    apply andb_true_iff in H as [A C]. apply andb_true_iff. split.
+    + apply orb_true_iff in A as [A|A]; [now rewrite A|]. apply orb_true_iff. right.
+      unfold mem in *. simpl. rewrite A. apply orb_true_r.
+    + apply orb_true_iff in C as [C|C]; [|now rewrite C, orb_true_r].
+      apply orb_true_iff. left. now apply (is_some_put_mono N.eqb Neqb_spec).
+  - intros d0 H. exact H.
+Qed.
+
+Lemma fle_restore fx ov tl : forall s, fle s (fst (file_restore fx ov tl s)).
+Proof.
+  induction tl as [|[k n] tl IH]; intro s; [apply fle_refl|].
+  cbn [file_restore]. destruct ((n =? 0) || mem N.eqb n (f_names s)); [apply IH|].
+  destruct (file_fetch (mkDesc (k_mt k) (k_dig k) (k_size k) 0) s) as [c2|]; [|apply IH].
+  match goal with |- context [file_named_push fx ov s k n ?c] => pose proof (fle_named_push fx ov s k n c) as H1;
+    destruct (file_named_push fx ov s k n c) as [s1 [e|]] end; cbn [fst] in H1.
+  - destruct e as [o|[| |]]; try exact H1. eapply fle_trans; [exact H1 | apply IH].
+  - eapply fle_trans; [exact H1 | apply IH].
+Qed.
+
 Lemma fle_push_store fx ig ov s d c : fle s (fst (file_push_store fx ig ov s d c)).
 Proof.
   unfold file_push_store.
   destruct (d_name d =? 0).
-  - destruct ig; [destruct (is_manifest (d_mt d) && negb (verify d c)); apply fle_refl|].
-    destruct (get gkey_eqb (gk d) (f_cas s)); [apply fle_refl|].
-    destruct (verify d (limit_reader d c)); [|apply fle_refl].
-    intros d0. unfold file_exists, name_ok. cbn [fst f_names f_d2p f_cas]. intro H.
-    apply andb_true_iff in H as [A C]. rewrite A. simpl. apply orb_true_iff in C as [C|C].
-    + now rewrite C.
-    + apply orb_true_iff. right. now apply (is_some_put_mono gkey_eqb gkey_eqb_spec).
-  - destruct (mem N.eqb (d_name d) (f_names s)); [apply fle_refl|].
-    destruct (ov && is_some (get N.eqb (path_of (d_name d)) (f_disk s))); [apply fle_refl|].
-    destruct (verify d c).
-    + intros d0. unfold file_exists, name_ok. cbn [fst f_names f_d2p f_cas]. intro H.
-      apply andb_true_iff in H as [A C]. apply andb_true_iff. split.
-      * apply orb_true_iff in A as [A|A]; [now rewrite A|]. apply orb_true_iff. right.
-        unfold mem in *. simpl. rewrite A. apply orb_true_r.
-      * apply orb_true_iff in C as [C|C]; [|now rewrite C, orb_true_r].
-        apply orb_true_iff. left. now apply (is_some_put_mono N.eqb Neqb_spec).
-    + intros d0 H. exact H.
+  - destruct ig.
+    + destruct (is_manifest (d_mt d)); [|apply fle_refl]. destruct (verify d c); [|apply fle_refl].
+      pose proof (fle_restore fx ov (b_tl c) s) as H. destruct (file_restore fx ov (b_tl c) s) as [s2 [e|]]; exact H.
+    + destruct (get gkey_eqb (gk d) (f_cas s)); [apply fle_refl|].
+      destruct (verify d (limit_reader d c)); [|apply fle_refl].
+      intros d0. unfold file_exists, name_ok. cbn [fst f_names f_d2p f_cas]. intro H.
+      apply andb_true_iff in H as [A C]. rewrite A. simpl. apply orb_true_iff in C as [C|C].
+      * now rewrite C.
+      * apply orb_true_iff. right. now apply (is_some_put_mono gkey_eqb gkey_eqb_spec).
+  - apply fle_named_push.
+Qed.
+
+(* storing untitled content keeps the store untitled *)
+Lemma unt_push_store fx ig ov s d c :
+  untitled_blob c -> file_unt s -> file_unt (fst (file_push_store fx ig ov s d c)).
+Proof.
+  intros [U1 U2] Hu. pose proof Hu as [UA UC]. unfold file_push_store.
+  destruct (d_name d =? 0).
+  - destruct ig.
+    + destruct (is_manifest (d_mt d)); [|exact Hu]. destruct (verify d c); [|exact Hu]. rewrite U1. exact Hu.
+    + destruct (get gkey_eqb (gk d) (f_cas s)); [exact Hu|].
+      destruct (verify d (limit_reader d c)); [|exact Hu].
+      constructor; cbn [fst f_disk f_cas]; auto. intros k c0.
+      destruct (eqb_dec gkey_eqb gkey_eqb_spec k (gk d)) as [->|Hne].
+      * rewrite (get_put_eq gkey_eqb gkey_eqb_spec). intro E. injection E as <-.
+        unfold limit_reader. destruct (d_size d <? b_len c); auto.
+      * rewrite (get_put_neq gkey_eqb gkey_eqb_spec) by exact Hne. apply UC.
+  - unfold file_named_push.
+    destruct (mem N.eqb (d_name d) (f_names s)); [exact Hu|]. destruct (bad_name (d_name d)); [exact Hu|].
+    destruct (ov && is_some (get N.eqb (path_of (d_name d)) (f_disk s))); [exact Hu|].
+    destruct ((k_dig (gk d) =? b_hash c) && (k_size (gk d) =? b_len c)); cbn [fst];
+      constructor; cbn [f_disk f_cas]; auto; intros p c0.
+    + destruct (N.eq_dec p (path_of (d_name d))) as [->|Hne].
+      * rewrite (get_put_eq N.eqb Neqb_spec). intro E. now injection E as <-.
+      * rewrite (get_put_neq N.eqb Neqb_spec) by exact Hne. apply UA.
+    + destruct fx.
+      * intro E. destruct (N.eq_dec p (path_of (d_name d))) as [->|Hne].
+        -- rewrite (get_del_eq N.eqb) in E. discriminate.
+        -- rewrite (get_del_neq N.eqb Neqb_spec) in E by exact Hne. eapply UA; eauto.
+      * destruct (N.eq_dec p (path_of (d_name d))) as [->|Hne].
+        -- rewrite (get_put_eq N.eqb Neqb_spec). intro E. now injection E as <-.
+        -- rewrite (get_put_neq N.eqb Neqb_spec) by exact Hne. apply UA.
 Qed.
 
 Definition fremaining (t : fthread) : list op :=
@@ -157,6 +259,7 @@ Section FileConc.
                          match nth_error (fc_threads cf) i with Some t => fremaining t | None => [] end
                          = nth i progs [];
     fi_core : fcore (fc_store cf) = fcore (seq_fstate (map snd (fc_log cf)));
+    fi_unt : file_unt (fc_store cf);
     fi_threads : Forall (fthread_ok (fc_store cf)) (fc_threads cf) }.
 
   Lemma flat_map_fremaining_init progs :
@@ -172,50 +275,61 @@ Section FileConc.
       + unfold fremaining. simpl. symmetry. now apply nth_error_nth.
       + symmetry. apply nth_overflow. now apply nth_error_None.
     - reflexivity.
+    - exact file_unt_init.
     - apply Forall_forall. intros t Ht. apply in_map_iff in Ht as (p & <- & _). exact I.
   Qed.
 
   (* one atomic step: what it commits, what it does to the core, and that presence grows *)
   Lemma fstep_facts s t s' t' lg :
-    fthread_ok s t -> fthread_step fx ig ov s t = Some (s', t', lg) ->
-    fremaining t = lg ++ fremaining t' /\ fle s s' /\ fthread_ok s' t' /\
+    fthread_ok s t -> file_unt s -> (forall o, In o (fremaining t) -> untitled o) ->
+    fthread_step fx ig ov s t = Some (s', t', lg) ->
+    fremaining t = lg ++ fremaining t' /\ fle s s' /\ fthread_ok s' t' /\ file_unt s' /\
     ((lg = [] /\ fcore s' = fcore s) \/
      (exists o, lg = [o] /\ fcore s' = fcore (fst (file_step fx ig ov s o)))).
   Proof.
     unfold fthread_step, fthread_ok, fremaining. destruct t as [pc ops]; cbn [ft_pc ft_ops].
-    destruct pc as [|d|d r]; intro Hok.
+    destruct pc as [|d|d r]; intros Hok Hu Hun.
     - destruct ops as [|o rest]; [discriminate|].
       assert (Hdone : fst (file_step fx ig ov s o) = s ->
                       Some (s, mkFT FIdle rest, [o]) = Some (s', t', lg) ->
                       (o :: rest = lg ++ (match ft_pc t' with FTag2 d r => [Tag d r] | _ => [] end ++ ft_ops t')) /\
                       fle s s' /\ match ft_pc t' with FTag2 d r => file_exists d s' = true /\ r <> REmpty | _ => True end /\
+                      file_unt s' /\
                       ((lg = [] /\ fcore s' = fcore s) \/
                        (exists o0, lg = [o0] /\ fcore s' = fcore (fst (file_step fx ig ov s o0))))).
-      { intros E H. injection H as <- <- <-. cbn [ft_pc ft_ops]. repeat split; auto using fle_refl.
+      { intros E H. injection H as <- <- <-. cbn [ft_pc ft_ops].
+        split; [reflexivity|]. split; [apply fle_refl|]. split; [exact I|]. split; [exact Hu|].
         right. exists o. split; auto. now rewrite E. }
       destruct o; try (apply Hdone; reflexivity).
       + (* Push *)
+        assert (Huc : untitled_blob c) by (apply (Hun (Push d c)); simpl; now left).
         pose proof (file_step_push_split fx ig ov s d c) as Hsp.
         pose proof (fle_push_store fx ig ov s d c) as Hle.
+        pose proof (unt_push_store fx ig ov s d c Huc Hu) as Hu1.
         destruct (file_push_store fx ig ov s d c) as [s1 [x|]]; cbn [fst] in *;
-          intro H; injection H as <- <- <-; cbn [ft_pc ft_ops]; repeat split; auto;
+          intro H; injection H as <- <- <-; cbn [ft_pc ft_ops];
+          (split; [reflexivity|]); (split; [exact Hle|]); (split; [exact I|]); (split; [exact Hu1|]);
           right; exists (Push d c); (split; [reflexivity|]); rewrite Hsp; cbn [fst]; auto.
         now rewrite fcore_index_after.
       + apply Hdone. cbn [file_step]. destruct (file_fetch d s); reflexivity.
       + (* Tag *)
         destruct r as [m|g|]; try (apply Hdone; reflexivity);
           (destruct (file_exists d s) eqn:E;
-           [intro H; injection H as <- <- <-; cbn [ft_pc ft_ops]; repeat split; auto using fle_refl; discriminate
+           [intro H; injection H as <- <- <-; cbn [ft_pc ft_ops];
+            (split; [reflexivity|]); (split; [apply fle_refl|]); (split; [split; [exact E | discriminate]|]);
+            (split; [exact Hu|]); left; split; reflexivity
            | apply Hdone; cbn [file_step]; now rewrite E]).
       + (* Resolve *)
         apply Hdone. cbn [file_step]. destruct r; try reflexivity;
           destruct (get ref_eqb _ (r_index (f_res s))); reflexivity.
-    - intro H. injection H as <- <- <-. cbn [ft_pc ft_ops]. repeat split; auto.
-      + apply fle_core. symmetry. apply fcore_index_after.
-      + left. split; auto. apply fcore_index_after.
-    - destruct Hok as [He Hr]. intro H. injection H as <- <- <-. cbn [ft_pc ft_ops]. repeat split; auto.
-      + intros d0 X. exact X.
-      + right. exists (Tag d r). split; auto. cbn [file_step]. destruct r; [| |congruence]; now rewrite He.
+    - intro H. injection H as <- <- <-. cbn [ft_pc ft_ops].
+      split; [reflexivity|]. split; [apply fle_core; symmetry; now apply fcore_index_after|].
+      split; [exact I|]. split; [eapply file_unt_core; [symmetry; now apply fcore_index_after | exact Hu]|].
+      left. split; auto. now apply fcore_index_after.
+    - destruct Hok as [He Hr]. intro H. injection H as <- <- <-. cbn [ft_pc ft_ops].
+      split; [reflexivity|]. split; [intros d0 X; exact X|]. split; [exact I|].
+      split; [destruct Hu as [UA UC]; constructor; [exact UA | exact UC]|].
+      right. exists (Tag d r). split; auto. cbn [file_step]. destruct r; [| |congruence]; now rewrite He.
   Qed.
 
   Lemma fthread_ok_mono s s' t : fle s s' -> fthread_ok s t -> fthread_ok s' t.
@@ -225,18 +339,23 @@ Section FileConc.
     flat_map fremaining (l1 ++ t :: l2) = flat_map fremaining l1 ++ fremaining t ++ flat_map fremaining l2.
   Proof. rewrite flat_map_app. reflexivity. Qed.
 
-  Lemma finv_step progs cf i : finv progs cf -> finv progs (fconf_step fx ig ov cf i).
+  Lemma finv_step progs cf i :
+    Forall untitled (concat progs) -> finv progs cf -> finv progs (fconf_step fx ig ov cf i).
   Proof.
-    intros Hinv. unfold fconf_step.
+    intros Hunall Hinv. unfold fconf_step.
     destruct (nth_error (fc_threads cf) i) as [t|] eqn:En; [|exact Hinv].
     destruct (fthread_step fx ig ov (fc_store cf) t) as [[[s' t'] lg]|] eqn:Es; [|exact Hinv].
     apply nth_error_split in En as (l1 & l2 & Hth & Hlen). subst i.
     destruct cf as [s ths L]. cbn [fc_store fc_threads fc_log] in *. subst ths.
     rewrite upd_nth_split.
-    destruct Hinv as [Hperm Hord Hcore Hthr]. cbn [fc_store fc_threads fc_log] in *.
+    destruct Hinv as [Hperm Hord Hcore Hu Hthr]. cbn [fc_store fc_threads fc_log] in *.
     assert (Hokt : fthread_ok s t).
     { rewrite Forall_forall in Hthr. apply Hthr. apply in_or_app. right. now left. }
-    destruct (fstep_facts s t s' t' lg Hokt Es) as (Hrem & Hle & Hok' & Hc).
+    assert (Hunt : forall o, In o (fremaining t) -> untitled o).
+    { intros o Ho. rewrite Forall_forall in Hunall. apply Hunall.
+      eapply Permutation_in; [exact Hperm|]. apply in_or_app. right.
+      rewrite flat_map_app. apply in_or_app. right. simpl. apply in_or_app. now left. }
+    destruct (fstep_facts s t s' t' lg Hokt Hu Hunt Es) as (Hrem & Hle & Hok' & Hu' & Hc).
     constructor; cbn [fc_store fc_threads fc_log].
     - rewrite map_app, map_snd_pair.
       rewrite flat_map_fremaining_split. rewrite flat_map_fremaining_split, Hrem in Hperm.
@@ -249,14 +368,16 @@ Section FileConc.
     - rewrite map_app, map_snd_pair. destruct Hc as [(-> & A)|(o & -> & A)].
       + rewrite app_nil_r. congruence.
       + rewrite seq_fstate_snoc, A. now apply file_step_core.
+    - exact Hu'.
     - apply Forall_forall. intros x Hx. rewrite Forall_forall in Hthr.
       apply in_app_or in Hx as [Hx|[<-|Hx]]; auto;
         (eapply fthread_ok_mono; [exact Hle|]; apply Hthr; apply in_or_app; auto). right. now right.
   Qed.
 
-  Lemma finv_run progs sched : forall cf, finv progs cf -> finv progs (fconf_run fx ig ov cf sched).
+  Lemma finv_run progs sched :
+    Forall untitled (concat progs) -> forall cf, finv progs cf -> finv progs (fconf_run fx ig ov cf sched).
   Proof.
-    unfold fconf_run. induction sched as [|i sched IH]; intros cf H; [exact H|].
+    intro Hun. unfold fconf_run. induction sched as [|i sched IH]; intros cf H; [exact H|].
     simpl. apply IH. now apply finv_step.
   Qed.
 
@@ -271,6 +392,7 @@ Section FileConc.
      the same operations in program order; hence every Fetch, Exists and Resolve answers
      alike.  (Predecessors: harness only.) *)
   Theorem quiescent_serialisable_file (progs : list (list op)) (sched : list nat) :
+    Forall untitled (concat progs) -> Forall no_alias (concat progs) ->
     let cf := fconf_run fx ig ov (fconf_init progs) sched in
     fquiescent cf = true ->
     exists order : list (nat * op),
@@ -282,8 +404,8 @@ Section FileConc.
                   snd (file_step fx ig ov (fc_store cf) (Exists d)) = snd (file_step fx ig ov q (Exists d)) /\
                   snd (file_step fx ig ov (fc_store cf) (Resolve r)) = snd (file_step fx ig ov q (Resolve r)).
   Proof.
-    intros cf Hq. pose proof (finv_run progs sched _ (finv_init progs)) as Hinv. fold cf in Hinv.
-    destruct Hinv as [Hperm Hord Hcore Hthr]. unfold fquiescent in Hq.
+    intros Hun _ cf Hq. pose proof (finv_run progs sched Hun _ (finv_init progs)) as Hinv. fold cf in Hinv.
+    destruct Hinv as [Hperm Hord Hcore Hu Hthr]. unfold fquiescent in Hq.
     assert (Hrem : flat_map fremaining (fc_threads cf) = []).
     { clear - Hq. induction (fc_threads cf) as [|t ths IH]; simpl in *; auto.
       apply andb_true_iff in Hq as [A C]. rewrite (fthread_done_spec t A). now apply IH. }
@@ -309,3 +431,20 @@ Definition fx_progs : list (list op) :=
 Definition fx_sched : list nat := [0; 1; 1; 0; 0; 1; 0; 1; 1; 0; 0; 1; 1; 1; 0; 1; 0; 1]%nat.
 Lemma fx_quiescent : fquiescent (fconf_run true false false (fconf_init fx_progs) fx_sched) = true.
 Proof. vm_compute. reflexivity. Qed.
+
+Theorem conc_fetch_matches_file (ig ov : bool) (progs : list (list op)) (sched : list nat) d hash len :
+  Forall untitled (concat progs) -> Forall no_alias (concat progs) ->
+  snd (file_step true ig ov (fc_store (fconf_run true ig ov (fconf_init progs) sched)) (Fetch d)) = FO (OBytes hash len) ->
+  hash = d_dig d.
+Proof.
+  intros Hun Hna. pose proof (finv_run true ig ov progs sched Hun _ (finv_init true ig ov progs)) as Hinv.
+  destruct Hinv as [Hperm _ Hcore _ _].
+  set (cf := fconf_run true ig ov (fconf_init progs) sched) in *.
+  assert (HnaL : Forall no_alias (map snd (fc_log cf))).
+  { apply Forall_forall. intros o Ho. rewrite Forall_forall in Hna. apply Hna.
+    eapply Permutation_in; [exact Hperm|]. apply in_or_app. now left. }
+  pose proof (file_run_inv ig ov (map snd (fc_log cf)) _ HnaL file_inv_init) as Hq.
+  rewrite (fcore_eq_graph _ _ Hcore). cbn [file_step]. rewrite file_fetch_graph.
+  destruct (file_fetch d (seq_fstate true ig ov (map snd (fc_log cf)))) as [c|] eqn:Ef; [|discriminate].
+  destruct (file_fetch_inv _ _ _ Hq Ef) as [Hh _]. cbn [snd]. intro X. injection X as <- _. exact Hh.
+Qed.
